@@ -7,7 +7,7 @@ import ast
 import z3
 
 from .ty import (INT, BOOL, STR, TEXT, NONE, Ty, IntT, BoolT, StrT, TextT, NoneT, TupleT, ObjT, ListT, DictT, SetT,
-                 OptT, OrdDictT, MapT, str_code)
+                 OptT, OrdDictT, MapT, RealT, REAL, str_code)
 from .engine import Val, IntV, BoolV, StrV, NoneV, Unsupported, EmptyListT, PathDead, SpecEnv
 
 ASSUMED = {
@@ -142,6 +142,15 @@ def b_int(eng, n, st):
     if isinstance(v.ty, BoolT):
         return Val(z3.If(v.t, 1, 0), INT)
     raise Unsupported("int() of %s at line %s" % (v.ty, getattr(n, "lineno", "?")))
+
+
+def b_float(eng, n, st):
+    v = eng.ev(n.args[0], st)
+    if isinstance(v.ty, RealT):
+        return v
+    if isinstance(v.ty, IntT):
+        return Val(z3.ToReal(v.t), REAL)
+    raise Unsupported("float() of %s" % v.ty)
 
 
 def b_str(eng, n, st):
@@ -287,8 +296,27 @@ def sorted_list(eng, v, n, st, key=None):
         st.assume(z3.ForAll([i], z3.Implies(z3.And(0 <= i, i < L), z3.Select(v.t, z3.Select(lty.arr(res.t), i)))))
         st.assume(z3.ForAll([x], z3.Implies(z3.Select(v.t, x), z3.And(0 <= pos[x], pos[x] < L, z3.Select(lty.arr(res.t), pos[x]) == x))))
         return res
+    if isinstance(v.ty, SetT) and isinstance(v.ty.elt, StrT):
+        # sorted(set of strings): a function of the set; members exactly the set, strictly increasing in python's string order,
+        # which is an uninterpreted strict total order `str_lt` on the identity-string codes
+        eng.assumptions_used.add("assumed: sorted(set of str) lists exactly the members, strictly increasing in python's (lexicographic) string order str_lt")
+        lty = ListT(STR)
+        f = eng.uf("sorted_strs", [v.ty], lty)
+        lt = eng.uf("str_lt", [STR, STR], BOOL)
+        pos = eng.uf("sorted_strs_pos", [v.ty, STR], INT)
+        if "sorted_strs" not in eng.global_axioms:
+            s_ = z3.FreshConst(v.ty.sort(), "ss")
+            i, j, x = z3.FreshConst(z3.IntSort(), "si"), z3.FreshConst(z3.IntSort(), "sj"), z3.FreshConst(z3.IntSort(), "sx")
+            r = f(s_)
+            L = lty.len(r)
+            eng.global_axioms["sorted_strs"] = z3.ForAll([s_], z3.And(
+                L >= 0,
+                z3.ForAll([i, j], z3.Implies(z3.And(0 <= i, i < j, j < L), lt(z3.Select(lty.arr(r), i), z3.Select(lty.arr(r), j)))),
+                z3.ForAll([i], z3.Implies(z3.And(0 <= i, i < L), z3.And(z3.Select(s_, z3.Select(lty.arr(r), i)), pos(s_, z3.Select(lty.arr(r), i)) == i))),
+                z3.ForAll([x], z3.Implies(z3.Select(s_, x), z3.And(0 <= pos(s_, x), pos(s_, x) < L, z3.Select(lty.arr(r), pos(s_, x)) == x)))))
+        return Val(f(v.t), lty)
     if isinstance(v.ty, SetT):
-        raise Unsupported("sorted(set) of non-int elements at line %s" % n.lineno)
+        raise Unsupported("sorted(set) of %s at line %s" % (v.ty.elt, n.lineno))
     ty = v.ty
     if not isinstance(ty, ListT):
         raise Unsupported("sorted of %s" % ty)
@@ -486,7 +514,14 @@ def b_same(eng, n, st):
     return Val(a.t == b.t, BOOL)
 
 
+def b_sorted_strs(eng, n, st):
+    v = eng.ev(n.args[0], st)
+    return sorted_list(eng, v, n, st)
+
+
 BUILTINS = {
+    "float": b_float,
+    "sorted_strs": b_sorted_strs,
     "same": b_same,
     "getattr": b_getattr,
     "untok": b_untok, "cat": b_cat, "keys": b_keys,
@@ -536,6 +571,23 @@ def l_re_split(eng, n, st):
 
 
 LIBCALLS["re.split"] = l_re_split
+
+RE_MATCH_NAMES = {}
+
+
+def l_re_match(eng, n, st):
+    """re.match(LITERAL, s): an uninterpreted predicate of s per regex literal; what the literal accepts is the subject of the regex lemmas"""
+    if not isinstance(n.args[0], ast.Constant):
+        raise Unsupported("re.match with a non-literal pattern at line %s" % n.lineno)
+    pat = n.args[0].value
+    name = RE_MATCH_NAMES.setdefault(pat, "re_match_%d" % len(RE_MATCH_NAMES))
+    eng.regex_literals = getattr(eng, "regex_literals", {})
+    eng.regex_literals[name] = pat
+    x = eng.ev(n.args[1], st)
+    return Val(eng.uf(name, [STR], BOOL)(x.t), BOOL)
+
+
+LIBCALLS["re.match"] = l_re_match
 
 
 # ---- methods on values ---------------------------------------------------------------------------------
@@ -690,12 +742,27 @@ def m_sink_tell(eng, recv, n, st):
 
 def m_str_rstrip(eng, recv, n, st):
     if n.args:
+        a = n.args[0]
+        if isinstance(a, ast.Constant) and a.value == "\r\n":
+            return Val(eng.uf("rstrip_crlf", [STR], STR)(recv.t), STR)
         raise Unsupported("rstrip with arguments at line %s" % n.lineno)
     return Val(eng.uf("rstrip", [STR], STR)(recv.t), STR)
 
 
+def m_str_isdigit(eng, recv, n, st):
+    return Val(eng.uf("str_isdigit", [STR], BOOL)(recv.t), BOOL)
+
+
+def m_str_decode(eng, recv, n, st):
+    return recv  # bytes and str carry the same text in the model (the bytes branch of the code is covered by the bounded stand-in)
+
+
 def m_str_split_tab(eng, recv, n, st):
     a = eng.ev(n.args[0], st) if n.args else None
+    if a is not None and z3.is_int_value(z3.simplify(a.t)) and z3.simplify(a.t).as_long() == str_code(" "):
+        v = Val(eng.uf("words_of", [STR], LINE)(recv.t), LINE)
+        st.assume(LINE.len(v.t) >= 1)
+        return v
     if a is not None and z3.is_int_value(z3.simplify(a.t)) and z3.simplify(a.t).as_long() == str_code("\t"):
         v = Val(eng.uf("fields_of", [STR], LINE)(recv.t), LINE)
         st.assume(LINE.len(v.t) >= 1)
@@ -703,8 +770,49 @@ def m_str_split_tab(eng, recv, n, st):
     raise Unsupported("str.split form at line %s" % n.lineno)
 
 
+def m_linesink_write(eng, recv, n, st):
+    """text sink that is a list of finished lines + the fields of the line being written:
+       write("\\n") finishes the line; write("a\\tb") starts a line (only when it is empty); write("\\tc\\td") adds fields"""
+    ty = recv.ty
+    if not (isinstance(ty, ObjT) and ty.cname == "LineSink"):
+        raise Unsupported("write on %s" % ty)
+    a0 = n.args[0]
+    if isinstance(a0, ast.Constant) and isinstance(a0.value, str) and "\t" in a0.value:
+        # a literal with tabs: the same field-list reading as a %-format without conversions
+        fmt = a0.value
+        leading = fmt.startswith("\t")
+        fs = [StrV(x) for x in (fmt[1:] if leading else fmt).split("\t")]
+        t0 = LINE.empty()
+        arr = LINE.arr(t0)
+        for i, f in enumerate(fs):
+            arr = z3.Store(arr, i, f.t)
+        v = Val(LINE.mk(arr, z3.IntVal(len(fs))), LINE, meta={"leading_tab": leading})
+    else:
+        v = eng.ev(a0, st)
+    done = Val(ty.get(recv.t, "done"), ty.fields["done"])
+    cur = Val(ty.get(recv.t, "cur"), ty.fields["cur"])
+    lty = ty.fields["done"]
+    if isinstance(v.ty, StrT):
+        sv = z3.simplify(v.t)
+        if z3.is_int_value(sv) and sv.as_long() == str_code("\n"):
+            nd = lty.mk(z3.Store(lty.arr(done.t), lty.len(done.t), cur.t), lty.len(done.t) + 1)
+            new = ty.mk([nd, LINE.empty()])
+            eng.assign_target(n.func.value, Val(new, ty), st, n)
+            return NoneV
+        raise Unsupported("LineSink.write of a bare string at line %s" % n.lineno)
+    if v.ty == LINE:
+        if v.meta is not None and v.meta.get("leading_tab") is False:
+            eng.oblige(st, "safety", "line-started-on-an-empty-line", LINE.len(cur.t) == 0, n)
+        nc = eng.list_concat(cur, v, st)
+        eng.assign_target(n.func.value, Val(ty.mk([done.t, nc.t]), ty), st, n)
+        return NoneV
+    raise Unsupported("LineSink.write(%s) at line %s" % (v.ty, n.lineno))
+
+
 METHODS = {
-    ("ListT", "write"): m_sink_write, ("ListT", "tell"): m_sink_tell, ("StrT", "rstrip"): m_str_rstrip, ("StrT", "split"): m_str_split_tab,
+    ("ObjT", "write"): m_linesink_write,
+    ("ListT", "write"): m_sink_write, ("ListT", "tell"): m_sink_tell, ("StrT", "rstrip"): m_str_rstrip, ("StrT", "isdigit"): m_str_isdigit,
+    ("StrT", "decode"): m_str_decode, ("StrT", "split"): m_str_split_tab,
     ("StrT", "startswith"): b_startswith,
     ("ListT", "append"): m_list_append, ("EmptyListT", "append"): m_list_append, ("ListT", "reverse"): m_list_reverse,
     ("ListT", "sort"): m_list_sort, ("ListT", "count"): m_list_count,
